@@ -108,6 +108,7 @@ type Unit struct {
 	usedContracts map[string]bool
 	frameAx      map[int][]*frameAxiom
 	pureHist     map[string][]*pureCall
+	assumed      map[int]bool
 	openFacts    []openFact
 	substMaps    []map[*Term]*Term
 	ptrFacts     []ptrFact
@@ -219,6 +220,13 @@ func (u *Unit) assume(guard, fact *Term) {
 	if f.IsTrue() {
 		return
 	}
+	if u.assumed == nil {
+		u.assumed = map[int]bool{}
+	}
+	if u.assumed[f.id] {
+		return
+	}
+	u.assumed[f.id] = true
 	u.assumptions = append(u.assumptions, f)
 }
 
@@ -345,7 +353,9 @@ func (u *Unit) havoc(st *State, guard *Term, fr *FrameSpec) {
 	if !fr.Any && len(fr.Roots) == 0 && len(fr.Leaves) == 0 && len(fr.Maps) == 0 {
 		// nothing visible changes: only allocation may have happened
 		na := u.c.Fresh("alloc", SInt)
+		u.c.allocBase[na.id] = true
 		u.assume(guard, u.c.Le(st.alloc, na))
+		u.c.allocLB[na.id] = st.alloc
 		st.alloc = na
 		return
 	}
@@ -364,7 +374,12 @@ func (u *Unit) havoc(st *State, guard *Term, fr *FrameSpec) {
 	u.events = append(u.events, ev)
 	// objects may have been allocated
 	na := u.c.Fresh("alloc", SInt)
+	u.c.allocBase[na.id] = true
 	u.assume(guard, u.c.Le(st.alloc, na))
+	if guard == nil || guard.IsTrue() || true {
+		// the counter only grows on every path, so the bound is recorded unconditionally for the simplifier
+		u.c.allocLB[na.id] = st.alloc
+	}
 	st.alloc = na
 }
 
